@@ -281,13 +281,13 @@ def one_case(ctx, r, kind, spec, malformed, items, metas, stats):
 
 def run(ctx, info):
     ctx.trusted += ["T-core translator + PyLib.v (np.clip -> xclip, int() -> xtrunc, np.argsort -> any valid argsort / argsort_nat)",
-                    "xnum embedding (pv/lit.py)", "hand model of the multi-variables and of random sampling (tied by correspondence only)"]
+                    "xnum embedding (pv/lit.py)", "hand model of random sampling (tied by correspondence only); the multi-variable classes are regenerated and bridged (MultiVarBridge.v), child names abstracted away"]
     ctx.assumptions += ["inputs to correct are not NaN (the property says finite); bounds are finite; choice lists are non-empty; items distinct"]
     st = info.get("regen", {})
     ctx.ties = {k: st.get(k) for k in ("gen_cont_correct", "gen_cont_validate", "gen_disc_get_bounds", "gen_disc_correct", "gen_disc_decode",
                                         "gen_perm_correct", "gen_perm_decode", "gen_binary_validate")}
-    ctx.ties.update({"ContinuousMultiVariable/MultiObjectiveVariable/DiscreteMultiVariable/BinaryVariable correct+decode": "correspondence",
-                     "randomize (all kinds)": "correspondence", "multi-variable validators": "correspondence"})
+    ctx.ties.update({k: st.get(k) for k in sorted(st) if k.startswith(("gen_cmv_", "gen_mov_", "gen_dmv_", "gen_bin_")) and not k.endswith("_mutates_param")})
+    ctx.ties.update({"randomize (all kinds)": "correspondence", "dispatch class -> model constructor": "correspondence"})
     r = ctx.rng
     items, metas, stats = [], [], {}
     n_main = 1500 if ctx.quick else 40000
